@@ -349,6 +349,11 @@ def make_inputs(ctx, d):
         with open(os.path.join(d, name), "w") as f:
             for _ in range(ns):
                 f.write(" ".join(words[rng.below(nw)] for _ in range(rng.range(2, 9))) + "\n")
+    # a corpus that does not fit a 1 MB sort budget: the external sort really spills (several on-disk runs, MergeQueue refills)
+    big = ["w%d" % i for i in range(700)]
+    with open(os.path.join(d, "corpus3.txt"), "w") as f:
+        for _ in range(3500):
+            f.write(" ".join(big[min(rng.below(700), rng.below(700))] for _ in range(rng.range(3, 12))) + "\n")
     with open(os.path.join(d, "vocab.txt"), "w") as f:
         f.write("a b c d e x looking on also would\n")
     shutil.copy(os.path.join(vlib.REPO, "lm", "test.arpa"), os.path.join(d, "test.arpa"))
@@ -476,6 +481,8 @@ def tool_specs(bins, d):
     lm = ["-S", "20M", "--vocab_estimate", "1000", "--discount_fallback"]
     specs = [
         Tool("lmplz", [L, "-o", "3"] + lm + ["-T", "tmp/", "--text", "../corpus1.txt", "--arpa", "out.arpa"], ["out.arpa"]),
+        Tool("lmplz-spill", [L, "-o", "3", "-S", "1M", "--sort_block", "16K", "--vocab_estimate", "4000", "--discount_fallback", "-T", "tmp/",
+                             "--text", "../corpus3.txt", "--arpa", "out.arpa"], ["out.arpa"]),
         Tool("lmplz-intermediate", [L, "-o", "3"] + lm + ["-T", "tmp/", "--text", "../corpus2.txt", "--intermediate", "im"],
              ["im.1", "im.2", "im.3", "im.vocab", "im.kenlm_intermediate"]),
         Tool("build_binary-probing-after", [bins["build_binary"], "probing", "../test.arpa", "out.bin"], ["out.bin"], binary="out.bin"),
